@@ -28,7 +28,7 @@ for pid in ALL:
         },
         'level_note': cfg.get('level_note', 'Bounds as listed in evidence.coverage.bounds; trusted: rustc MIR printer, mirsym interpreter and its std '
                               'models (cross-checked by native replay of witnesses on every run), z3, reference models in harness/spec.rs.'),
-        'technique': 'solver-based bounded symbolic execution of rustc MIR (mirsym + z3), native replay of witnesses',
+        'technique': 'solver-based bounded symbolic execution of rustc MIR regenerated from /repo on every run (mirsym + z3; cvc5 re-decides a sample of the queries' + ('; Kani/CBMC harnesses over dewey_cmp as a second engine' if cfg.get('kani') else '') + '), native replay of counterexamples and path witnesses',
     })
 na = [{'property_id': pid, 'reason': NA_REASON.get(pid, 'mirsym harness/models for this module not built yet in this session; '
        'Kani cannot execute this code within hours (DESIGN section 1)')} for pid in ALL if pid not in P.PROPS or pid in NA_REASON]
